@@ -339,9 +339,25 @@ func (s *PrefixFS) Readlink(name string) (string, error) {
 		return "", err
 	}
 	cleanedPath := filepath.Clean(linkedPath)
+	if !isAbs(cleanedPath) || !hasPathPrefix(cleanedPath, s.prefix) {
+		// relative targets and targets that do not lie below the prefix
+		// do not contain the prefix
+		return cleanedPath, nil
+	}
+	return trimPathPrefix(cleanedPath, s.prefix), nil
+}
 
-	prefixlessPath := strings.TrimPrefix(cleanedPath, s.prefix)
-	return prefixlessPath, nil
+// trimPathPrefix makes a path p that lies at or below prefix (hasPathPrefix)
+// relative to prefix as the root directory: /r/app/x -> /x, /r/app -> /
+func trimPathPrefix(p, prefix string) string {
+	rest := p
+	if prefix != "." {
+		rest = strings.TrimPrefix(p, prefix)
+	}
+	if !strings.HasPrefix(rest, separator) {
+		rest = separator + rest
+	}
+	return rest
 }
 
 func (s *PrefixFS) Lchown(name string, uid, gid int) error {
